@@ -14,7 +14,7 @@ from vlib import core
 
 INV_PROP = {"TypeOK": "C03", "DepsFirst": "C03", "WorkerBound": "C03",
             "NoLostSignal": "C04", "NoRace": "C04", "Resolved": "C04",
-            "KeepGoing": "C05", "NeverBelowFailure": "C05", "FailureRecorded": "C05"}
+            "KeepGoing": "C05", "KeepGoingExact": "C05", "NeverBelowFailure": "C05", "FailureRecorded": "C05", "AtMostOnce": "C03"}
 WHY_PROP = {
     "task-started-but-callback-not-entered": "C03", "worker-id-above-num_workers": "C03", "worker-slot-busy": "C03",
     "node-taken-twice": "C03", "ready-without-start": "C03", "started-before-all-dependencies-done": "C03",
@@ -29,8 +29,8 @@ WHY_PROP = {
     "pool-closed-while-walk-running": "C04",
     "harness-task-end-mismatch": "INFRA", "unexpected-event": "INFRA",
 }
-INVS_BY_PROP = {"C03": "TypeOK DepsFirst WorkerBound", "C04": "TypeOK NoLostSignal NoRace Resolved",
-                "C05": "TypeOK KeepGoing NeverBelowFailure FailureRecorded", "C18": "TypeOK Resolved"}
+INVS_BY_PROP = {"C03": "TypeOK DepsFirst DepsFirstTransitive WorkerBound", "C04": "TypeOK NoLostSignal NoRace Resolved",
+                "C05": "TypeOK KeepGoing KeepGoingExact NeverBelowFailure FailureRecorded", "C18": "TypeOK Resolved"}
 PROPS_BY_PROP = {"C03": "AtMostOnce", "C04": "", "C05": "StopsStarts", "C18": "StopsStarts"}
 
 
@@ -137,6 +137,63 @@ def validate(tmp, results, n_const=12, tag="tv"):
     return res, anomalies
 
 
+def scale_scenarios(seed, n, count):
+    """Large layered random DAGs (dependencies within a window of 40 predecessors), all nodes selected, free-running."""
+    import random
+    out = []
+    for i in range(count):
+        rng = random.Random(seed * 1000 + i)
+        deps = [[] for _ in range(n)]
+        for k in range(2, n + 1):
+            for _ in range(rng.randint(0, 3)):
+                d = rng.randint(max(1, k - 40), k - 1)
+                if d not in deps[k - 1]:
+                    deps[k - 1].append(d)
+            deps[k - 1].sort()
+        fail = sorted(rng.sample(range(1, n + 1), rng.choice([0, 1, 3, 8])))
+        out.append({"id": i + 1, "n": n, "deps": deps, "selected": list(range(1, n + 1)), "failfast": i % 2 == 1, "workers": 1 + i % 4, "canfail": fail,
+                    "extcancel": -1, "policy": "free", "seed": seed * 1000 + i, "script": []})
+    return out
+
+
+def evaluate_invariants(x):
+    """Walker.tla's invariants DepsFirst, WorkerBound, AtMostOnce and KeepGoingExact evaluated on the recorded events of one run by a
+    second evaluator (used for graphs of thousands of nodes, where TLC's trace validation takes hours). Returns [(line, name)]."""
+    cfg = x["cfg"]
+    deps = {i + 1: set(d) for i, d in enumerate(cfg["deps"])}
+    comp, started, running, slots, bad = {}, set(), 0, {}, []
+    for li, e in enumerate(x["ev"], 1):
+        a, n = e["a"], e["n"]
+        if a == "TaskStart":
+            if n in started:
+                bad.append((li, "AtMostOnce"))
+            started.add(n)
+            if not e["f"]:     # (a task that finds its context cancelled starts no command)
+                if any(comp.get(d) != "ok" for d in deps[n]):
+                    bad.append((li, "DepsFirst"))
+            running += 1
+            if running > cfg["workers"] or slots.get(e["w"]) is not None:
+                bad.append((li, "WorkerBound"))
+            slots[e["w"]] = n
+        elif a == "TaskEnd":
+            running -= 1
+            for w, m in list(slots.items()):
+                if m == n:
+                    slots[w] = None
+        elif a == "NodeComplete":
+            comp[n] = "ok" if e["f"] else "fail"
+    if x["outcome"] == "returned" and not cfg["failfast"] and cfg["extcancel"] < 0 and x.get("retkind") == "done":
+        for n in cfg["selected"]:
+            if all(comp.get(d) == "ok" for d in deps[n]):
+                if comp.get(n) not in ("ok", "fail") or (comp.get(n) == "fail") != (n in cfg["canfail"]):
+                    bad.append((len(x["ev"]), "KeepGoingExact"))
+                    break
+            elif comp.get(n) in ("ok", "fail"):
+                bad.append((len(x["ev"]), "KeepGoingExact"))
+                break
+    return bad
+
+
 def attribute(kind, detail):
     if kind == "INV":
         return INV_PROP.get(detail, "C04")
@@ -158,6 +215,9 @@ def run(chk, tmp, prop):
         batches.append(("alldags5", chk.seed + 4000, 0, 5, False, "alldags"))
         if not quick:
             batches.append(("alldags5b", chk.seed + 5000, 0, 5, False, "alldags"))
+    # graphs of hundreds of nodes validated by TLC, of thousands of nodes by the second evaluator (all free-running)
+    batches.append(("scale", chk.seed + 7000, 2 if quick else 4, 150 if quick else 400, False, "scale"))
+    batches.append(("big", chk.seed + 8000, 2 if quick else 8, 3000, False, "big"))
     if prop == "C04":
         batches.append(("race", chk.seed + 2000, 60 if quick else 600, 6 if quick else 10, True, None))
         batches.append(("race-free", chk.seed + 3000, 40 if quick else 400, 8, True, "free"))
@@ -168,7 +228,11 @@ def run(chk, tmp, prop):
     others = Counter()
     total_events = 0
     for tag, seed, count, maxn, race, policy in batches:
-        if policy == "alldags":
+        nconst = 12
+        if policy in ("scale", "big"):
+            results, crash, races, text = drive(tmp, seed, 0, 0, race=race, scenarios=scale_scenarios(seed, maxn, count), tag=tag)
+            nconst = maxn
+        elif policy == "alldags":
             results, crash, races, text = drive(tmp, seed, count, maxn, race=race, tag=tag, alldags=maxn)
         else:
             results, crash, races, text = drive(tmp, seed, count, maxn, race=race, policy=policy, tag=tag)
@@ -184,8 +248,13 @@ def run(chk, tmp, prop):
                 others["C04:data-race"] += 1
         if not results:
             continue
-        res, anomalies = validate(tmp, results, tag="tv_" + tag)
-        chk.add_tlc(f"WalkerTrace validation batch {tag}", res, traces=len(results))
+        if policy == "big":
+            anomalies = [(ti, line, "INV", name) for ti, x in enumerate(results) for line, name in evaluate_invariants(x)]
+            chk.cov.setdefault("second_evaluator_runs", []).append({"batch": tag, "nodes": maxn, "runs": len(results), "events": sum(len(x["ev"]) for x in results),
+                                                                     "invariants": ["DepsFirst", "WorkerBound", "AtMostOnce", "KeepGoingExact"]})
+        else:
+            res, anomalies = validate(tmp, results, n_const=nconst, tag="tv_" + tag)
+            chk.add_tlc(f"WalkerTrace validation batch {tag}", res, traces=len(results))
         chk.cov["traces_validated_against_impl"] += len(results)
         for x in results:
             total_events += len(x["ev"])
@@ -224,4 +293,5 @@ def run(chk, tmp, prop):
     chk.cov["events_validated"] = total_events
     chk.cov["anomalies_attributed_to_other_properties"] = dict(others)
     chk.assumptions += ["gate schedules are sampled (seeded), not exhaustive, for graphs beyond the TLC bound",
+                        "runs over 3 000-node graphs are judged by a second evaluator of four Walker.tla invariants and by termination, not by TLC trace validation",
                         "the in-process task stands for the shell command: it starts only if the walker context is live, as exec.Cmd.Start does"]
